@@ -1430,7 +1430,7 @@ func Checks() map[string]*simcore.Check {
 		},
 		Runs:       map[string]int{"quick": 2400, "thorough": 60000},
 		Gen:        Gen, Decode: Decode, Run: Run, Shrink: Shrink,
-		ProbeNames: []string{"queries", "query-nonempty-result", "query-index-behind-head", "query-tail-unindexed", "query-valid-range-trimmed", "query-index-on-stale-fork", "query-unindexed-scan", "query-served-from-index-only", "query-match-all", "reorg", "reorg-depth>=8", "head-moved-backwards", "restart", "idle-tail-unindexed", "idle-tail-reindexed", "idle-tail-partial-epoch", "multi-epoch-index", "row-overflow", "indexer-switched-itself-off"},
+		ProbeNames: []string{"queries", "query-nonempty-result", "query-index-behind-head", "query-tail-unindexed", "query-valid-range-trimmed", "query-unindexed-scan", "query-served-from-index-only", "query-match-all", "reorg", "reorg-depth>=8", "head-moved-backwards", "restart", "idle-tail-unindexed", "idle-tail-reindexed", "multi-epoch-index", "row-overflow", "indexer-switched-itself-off"},
 	}}
 }
 
